@@ -1740,7 +1740,12 @@ func (t *Topic) thisUserSub(sess *Session, pkt *ClientComMessage, asUid types.Ui
 		}
 
 		if len(update) > 0 {
-			if err := store.Subs.Update(t.name, asUid, update); err != nil {
+			// A channel reader is subscribed to chnXXX, not grpXXX.
+			tname := t.name
+			if userData.isChan {
+				tname = types.GrpToChn(tname)
+			}
+			if err := store.Subs.Update(tname, asUid, update); err != nil {
 				sess.queueOut(ErrUnknownReply(pkt, now))
 				return nil, err
 			}
